@@ -88,6 +88,24 @@ def families(tier):
         hs.append(dict(bus='A', pat='X', name='hx', prog=[('ret', 0)]))
         out.append(dict(prop='C03', family='c03.bounded_history', id=f'c03.bounded_history/h{hist}-d{depth}-f{fill}', cfg=cfg, params=dict(leaf='chain'),
                         scn=dict(buses={'A': dict(hist=hist)}, order=['A'], handlers=hs, main=[('disp', 'A', 'P', 'await')], actors=[stall_actor], forwards=[], settle=2.0)))
+    # a handler fans out more children than the target bus accepts (backlog limit, or - with a tiny history - a full queue) and carries on: the tree
+    # consists of the ACCEPTED children only, a refused one must not keep the await from returning
+    for n, cb, hist in itertools.product((53, 60), 'AB', (50, 5)):
+        hs = [dict(bus='A', pat='P', name='hp', prog=[('burst', cb, 'Y', n), ('pause',)]), dict(bus=cb, pat='Y', name='hy', prog=[('ret', 0)], kind='sync'),
+              dict(bus='A', pat='X', name='hx', prog=[('ret', 0)])]
+        names = ['A', 'B'] if cb == 'B' else ['A']
+        for o in ([names] if len(names) == 1 else [names, names[::-1]]):
+            out.append(dict(prop='C03', family='c03.refused_children', id=f'c03.refused/n{n}-{cb}-h{hist}-o{"".join(o)}', cfg=dict(cfg, max_points=300, bound=1), params=dict(leaf='refused'),
+                            scn=dict(buses={b: dict(hist=hist) for b in names}, order=o, handlers=hs, main=[('disp', 'A', 'P', 'await')], actors=[stall_actor], forwards=[], settle=2.0)))
+    # the awaited root is an instance of a subclass that is falsy (an empty batch event, __len__ == 0): completion must not depend on an event's truth value
+    for m, cb in itertools.product(('ff', 'await', 'late'), 'AB'):
+        names = ['A', 'B'] if cb == 'B' else ['A']
+        hp = [('disp', cb, 'C', m)] + ([('pause',), ('await', 'C')] if m == 'late' else [('pause',)] if m == 'await' else [])
+        hs = [dict(bus='A', pat='E', name='he', prog=hp), dict(bus=cb, pat='C', name='hc', prog=[('disp', cb, 'G', 'ff'), ('pause',)]), dict(bus=cb, pat='G', name='hg', prog=[('pause',)]),
+              dict(bus='A', pat='X', name='hx', prog=[('ret', 0)])]
+        for o in ([names] if len(names) == 1 else [names, names[::-1]]):
+            out.append(dict(prop='C03', family='c03.falsy_root_event', id=f'c03.falsy/{m}-{cb}-o{"".join(o)}', cfg=cfg, params=dict(leaf='falsy'),
+                            scn=dict(buses={b: {} for b in names}, order=o, handlers=hs, main=[('disp', 'A', 'E', 'await')], actors=[stall_actor], forwards=[], settle=2.0)))
     # self-recursion: hr(R d) dispatches R(d+1) while d < maxdepth
     for maxd, mode, extra in itertools.product((1, 2, 3, 4), ('ff', 'await'), (False, True)):
         hs = [dict(bus='A', pat='R', name='hr', prog=[('recurse', 'A', mode, maxd)] + ([('pause',)] if extra else []))]
